@@ -1,6 +1,7 @@
 SPECIFICATION Spec
 CONSTANTS
  Copies = 2  Pad = 0  Concat = TRUE
+ OutOvh = 1
  EarlyTailError = FALSE
  MaxReinit = 0
  CountCalls = TRUE
